@@ -198,7 +198,7 @@ def gen_case(rng, kmax=6, depth=3, op=None, variant=None, p=None):
         if key == "aw":
             vs["co"] = rng.random() < 0.5
         if key == "aiter" or vs.get("co"):
-            vs["cl"] = rng.choice([0, 0, 1, 2, 3])
+            vs["cl"] = rng.choice([0, 0, 1, 2, 3, 30])
         k += 1
     # an async-iterator list delivers plain items
     _strip_aiter_items(data)
@@ -252,7 +252,7 @@ def gen_abstract_case(rng, kmax=5):
         if key == "aw":
             vs["co"] = rng.random() < 0.5
         if key == "aiter" or vs.get("co"):
-            vs["cl"] = rng.choice([0, 0, 1, 2])
+            vs["cl"] = rng.choice([0, 0, 1, 2, 30])
         k += 1
     _strip_aiter_items(data)
     modes = gen_modes(rng)
@@ -370,11 +370,72 @@ def gen_lifetime_case(rng, variant=None):
 NN_FIELDS = [f for f, d in FIELDS.items() if d[0]]
 
 
+def gen_nested_gather_case(rng):
+    """Compact cancellation shape: the failing non-null awaitable has a sibling OBJECT (or list
+    item objects) with two or three awaitable children of its own - a nested gather below the
+    task that gets cancelled - whose cleanups take very different numbers of loop iterations;
+    nothing else of that root field is awaitable, so the root field completes right after the
+    failure; further root fields follow."""
+    g = _G(rng, dict(DEFAULT_P, p_null=0.0, p_raise=0.0, p_badtype=0.0, p_iter_raise=0.0))
+    op = "mutation" if rng.random() < 0.85 else "query"
+    root = "M" if op == "mutation" else "Q"
+    hot_f = rng.choice(["o", "on", "v"])
+    bad = rng.choice(["sn", "sn", "on", "lsn"])
+    nest_f = rng.choice(["o", "on", "v", "l", "i"])
+    leaves = rng.sample(LEAF_FIELDS, rng.randint(2, 3))
+    inner = [{"f": x, "a": None} for x in leaves]
+    if FIELDS[nest_f][3] in ABSTRACT and rng.random() < 0.5:
+        inner = [{"on": "I", "sel": inner}]
+    sub = [{"f": bad, "a": None, **({"sel": [{"f": "s", "a": None}]} if FIELDS[bad][3] != "String" else {})},
+           {"f": nest_f, "a": f"{nest_f}_1", "sel": inner}]
+    if rng.random() < 0.4:
+        sub.append({"f": "s", "a": "s_9"})
+    rng.shuffle(sub)
+    sel = [{"f": hot_f, "a": f"{hot_f}_1", "sel": sub}]
+    for n in range(rng.randint(1, 2)):
+        f = rng.choice(LEAF_FIELDS + ["o"])
+        it = {"f": f, "a": f"{f}_{n + 2}"}
+        if FIELDS[f][3] != "String":
+            it["sel"] = [{"f": "s", "a": None}]
+        sel.append(it)
+    if rng.random() < 0.25:
+        sel.insert(0, {"f": "s", "a": "s_0"})
+    data = {"t": "obj", "tn": root, "ito": True, "f": {}}
+    for rk, subsel in flat_fields(sel, g.frags).items():
+        data["f"][rk] = gen_value(g, field_of(rk), subsel)
+    hot = data["f"][f"{hot_f}_1"]
+    k = 0
+    hot["f"][bad] = rng.choice([{"t": "raise"}, {"t": "leaf", "v": None}])
+    hot["f"][bad].update({"aw": k, "co": rng.random() < 0.5, "cl": 0})
+    k += 1
+    nest = hot["f"][f"{nest_f}_1"]
+    objs = [nest] if nest["t"] == "obj" else [it for it in nest.get("items", []) if it["t"] == "obj"]
+    cls = [rng.choice([0, 1]), rng.choice([30, 40]), rng.choice([0, 2, 30])]
+    rng.shuffle(cls)
+    for ob in objs[:2]:
+        for n, x in enumerate(leaves):
+            c = ob["f"].get(x)
+            if c is None or c["t"] == "list" or k >= 7:
+                continue
+            c.update({"aw": k, "co": rng.random() < 0.85, "cl": cls[n]})
+            k += 1
+    if "s_9" in hot["f"] and rng.random() < 0.5:
+        hot["f"]["s_9"].update({"aw": k, "co": True, "cl": rng.choice([0, 3])})
+        k += 1
+    if nest["t"] == "obj" and rng.random() < 0.25:
+        nest.update({"aw": k, "co": rng.random() < 0.5, "cl": 0})
+        k += 1
+    return {"variant": rng.choice(["A", "B"]), "op": op, "sel": sel, "frags": {}, "data": data, "k": k, "stream": "cancel",
+            "ito_modes": {t: rng.choice(["sync", "none"]) for t in OBJECT_TYPES}}
+
+
 def gen_cancel_case(rng):
     """A selection set in which a non-null awaitable child fails while sibling resolver
     coroutines (with awaited cleanup), async iterators and nested awaitables are pending: the
     siblings are cancelled (gather_with_cancel) and must have finished unwinding before anything
     that follows - in particular the next root field of a mutation."""
+    if rng.random() < 0.4:
+        return gen_nested_gather_case(rng)
     g = _G(rng, dict(DEFAULT_P, p_null=0.03, p_raise=0.03, p_badtype=0.0, p_iter_raise=0.0))
     op = "mutation" if rng.random() < 0.75 else "query"
     root = "M" if op == "mutation" else "Q"
@@ -388,11 +449,13 @@ def gen_cancel_case(rng):
             bad = rng.choice(NN_FIELDS)
             sub = [{"f": bad, "a": None, **({"sel": gen_sel(g, 0, FIELDS[bad][3])} if FIELDS[bad][3] != "String" else {})}]
             for _ in range(rng.randint(1, 3)):
-                sf = rng.choice(LEAF_FIELDS + COMP_FIELDS[:4])
+                sf = rng.choice(LEAF_FIELDS + ["o", "on", "v", "o"])
                 g.alias += 1
                 it = {"f": sf, "a": f"{sf}_{g.alias}"}
                 if FIELDS[sf][3] != "String":
                     it["sel"] = gen_sel(g, 1, FIELDS[sf][3])
+                    if len(it["sel"]) < 2:
+                        it["sel"] = it["sel"] + [{"f": x, "a": None} for x in rng.sample(LEAF_FIELDS, 2)]
                 sub.insert(rng.randint(0, len(sub)), it)
             rk = f"{f}_{g.alias}"
             sel.append({"f": f, "a": rk, "sel": sub})
@@ -416,26 +479,49 @@ def gen_cancel_case(rng):
             if k >= 8:
                 break
             ob["f"][bad] = rng.choice([{"t": "raise"}, {"t": "leaf", "v": None}])
-            ob["f"][bad].update({"aw": k, "co": rng.random() < 0.5, "cl": rng.choice([0, 1])})
+            ob["f"][bad].update({"aw": k, "co": rng.random() < 0.5, "cl": rng.choice([0, 1, 30])})
             k += 1
             for key, c in ob["f"].items():
                 if key == bad or k >= 8:
                     continue
-                if c["t"] == "list" and rng.random() < 0.5 and not any("aw" in it for it in c["items"]):
+                leaves = [x for x in c.get("f", {}).values() if x["t"] != "list"] if c["t"] == "obj" else []
+                if len(leaves) >= 2 and k + 2 <= 8 and rng.random() < 0.6:
+                    # a nested gather below a sibling that gets cancelled: two awaitable
+                    # children whose cleanups take different numbers of loop iterations
+                    a, b = rng.sample(leaves, 2)
+                    for x, cl in ((a, rng.choice([0, 1])), (b, rng.choice([30, 40]))):
+                        x["aw"] = k
+                        x["co"] = True
+                        x["cl"] = cl
+                        k += 1
+                    if rng.random() < 0.3 and k < 8:
+                        c["aw"] = k
+                        c["co"] = rng.random() < 0.5
+                        c["cl"] = 0
+                        k += 1
+                elif c["t"] == "list" and rng.random() < 0.5 and not any("aw" in it for it in c["items"]):
                     c["aiter"] = k
-                    c["cl"] = rng.choice([0, 1, 2, 3])
+                    c["cl"] = rng.choice([0, 1, 2, 3, 40])
                     k += 1
                 elif rng.random() < 0.8:
                     c["aw"] = k
                     c["co"] = rng.random() < 0.75
-                    c["cl"] = rng.choice([0, 1, 2, 3])
+                    c["cl"] = rng.choice([0, 1, 2, 3, 40])
                     k += 1
                     # a nested awaitable below an awaited sibling
                     if c["t"] == "obj" and c["f"] and rng.random() < 0.5 and k < 8:
                         inner = rng.choice(list(c["f"].values()))
                         inner["aw"] = k
                         inner["co"] = True
-                        inner["cl"] = rng.choice([0, 2])
+                        inner["cl"] = rng.choice([0, 2, 30])
+                        # a second one next to it: a nested gather below the cancelled sibling
+                        others = [x for x in c["f"].values() if x is not inner and "aw" not in x]
+                        if others and k + 1 < 8 and rng.random() < 0.7:
+                            other = rng.choice(others)
+                            other["aw"] = k + 1
+                            other["co"] = rng.random() < 0.7
+                            other["cl"] = rng.choice([0, 1, 30])
+                            k += 1
                         k += 1
     # some later root fields awaitable as well
     for it in sel:
